@@ -47,7 +47,21 @@ def requests(tier):
                 for per_channel in ((False, True) if dt != "uint8" else (False,)):
                     reqs.append(dict(kind="fc", as_conv=True, depth=depth, blk=16, slices=slice_lists(depth)[0], acc=acc, dt=dt, per_channel=per_channel, wzp=3 if dt == "uint8" else 0,
                                      k=(1, 1), ic=24, dil=(1, 1), wseed=0, bseed=0))
+    # rounding ties: every channel's multiplier is exactly k + 0.5 before rounding (int8/int16: the double-product derivation)
+    for kind in ("conv", "depthwise"):
+        for acc in ACCS:
+            for dt in ("int8", "int16"):
+                reqs.append(dict(kind=kind, depth=40, blk=16, slices=slice_lists(40)[0], acc=acc, dt=dt, per_channel=True, wzp=0, ties=True,
+                                 k=(3, 3), ic=8, dil=(1, 1), wseed=0, bseed=0))
     return reqs
+
+
+def _scales(req, ch):
+    """(ifm scale, weight scale of channel ch, ofm scale) as float32.  With req['ties'] the exact product has 32 significant bits ending
+    in ...1: the 31-bit multiplier is a rounding tie in every channel (k + 0.5 with k of both parities)"""
+    if req.get("ties"):
+        return np.float32(65537 * 2.0 ** -24), np.float32((32769 + 2 * ch) * 2.0 ** -22), np.float32(2.0 ** -6)
+    return np.float32(0.0235), (np.float32(0.004 + 0.0007 * (ch % 5)) if req["per_channel"] else np.float32(0.005)), np.float32(0.0471)
 
 
 class _Blk:
@@ -74,17 +88,17 @@ def make_op(req, shared=None):
     else:
         wshape = [kh, kw, ic, depth]
     lo, hi = (0, 255) if wdt == "uint8" else (-127, 127)
-    key = ("w", tuple(wshape), wdt, req["wseed"], req["per_channel"], req["wzp"])
+    key = ("w", tuple(wshape), wdt, req["wseed"], req["per_channel"], req["wzp"], bool(req.get("ties")))
     if shared is not None and key in shared:
         wt = shared[key]
     else:
         wvals = rng.integers(lo, hi + 1, size=wshape)
         wq = QuantizationParameters()
         if req["per_channel"]:
-            wq.scale_f32 = np.asarray([0.004 + 0.0007 * (i % 5) for i in range(depth)], dtype=np.float32)
+            wq.scale_f32 = np.asarray([_scales(req, i)[1] for i in range(depth)], dtype=np.float32)
             wq.zero_point = np.zeros(depth, dtype=np.int64)
         else:
-            wq.scale_f32 = np.float32(0.005)
+            wq.scale_f32 = _scales(req, 0)[1]
             wq.zero_point = req["wzp"]
         wt = create_const_tensor("w", wshape, dts[wdt], wvals.tolist() if False else wvals, quantization=wq)
         wt.values = wvals.astype(wt.dtype.as_numpy_type())
@@ -101,9 +115,9 @@ def make_op(req, shared=None):
     bt.format = TensorFormat.NHWC
     wt.purpose = TensorPurpose.Weights
     ifm = Tensor([1, 8, 8, depth if kind == "depthwise" else ic] if kind != "fc" else [1, ic], dts[req["dt"]], "ifm")
-    ifm.quantization = QuantizationParameters(scale_f32=np.float32(0.0235), zero_point=0 if req["dt"] != "uint8" else 128)
+    ifm.quantization = QuantizationParameters(scale_f32=_scales(req, 0)[0], zero_point=0 if req["dt"] != "uint8" else 128)
     ofm = Tensor([1, 8, 8, depth] if kind != "fc" else [1, depth], dts[req["dt"]], "ofm")
-    ofm.quantization = QuantizationParameters(scale_f32=np.float32(0.0471), zero_point=0)
+    ofm.quantization = QuantizationParameters(scale_f32=_scales(req, 0)[2], zero_point=0)
     optype = {"conv": Op.Conv2DBias, "depthwise": Op.DepthwiseConv2DBias, "fc": Op.FullyConnected}[kind]
     op = Operation(Op.Conv2DBias if req.get("as_conv") else optype, "op")
     if req.get("as_conv"):
@@ -134,8 +148,7 @@ def describe(t):
 
 
 def expected_scale(req, ch):
-    s_in, s_out = np.float32(0.0235), np.float32(0.0471)
-    s_w = np.float32(0.004 + 0.0007 * (ch % 5)) if req["per_channel"] else np.float32(0.005)
+    s_in, s_w, s_out = _scales(req, ch if req["per_channel"] else 0)
     if req["dt"] == "uint8" or (req["kind"] == "fc" and not req.get("as_conv")):
         real = float(np.double(s_in * s_w) / np.double(s_out))
     else:
